@@ -29,32 +29,44 @@ def gen_task_cases(ctx):
     return cases
 
 
+NAMES = {1: "ok1", 2: "ok2", 3: "bad", 4: "pok", 5: "pbad", 6: "allowbad", 7: "ppar", 8: "ptol", 9: "flaky", 10: "pgate"}
+# what a target leaves in the trace file; ptol is a pipeline whose only stage runs `flaky` with allow_failure (the pipeline succeeds; the
+# task itself stays a failing task: target 9); pgate is a pipeline one of whose stages has a condition that cannot be evaluated: it
+# fails, leaves no token, and is recognised by the scheduler's error message
+TOKEN = {1: "ok1", 2: "ok2", 3: "bad", 4: "pok", 5: "pbad", 6: "allowbad", 7: "ppar", 8: "flaky", 9: "flaky", 10: None}
+BAD = [3, 5, 7, 9, 10]
+NOCMD = "/nonexistent/verif-no-such-command"
+
+
 def cli_cases(ctx):
     """targets: 1 ok1, 2 ok2, 3 bad (exit 3), 4 pok (pipeline ok), 5 pbad (pipeline with a failing stage), 6 allowbad (fails, allowed)"""
-    names = {1: "ok1", 2: "ok2", 3: "bad", 4: "pok", 5: "pbad", 6: "allowbad", 7: "ppar"}
+    names = dict(NAMES)
     doc = {"tasks": {
         "ok1": {"command": ['echo ok1 >> "$PROJ/trace"']}, "ok2": {"command": ['echo ok2 >> "$PROJ/trace"']},
         "bad": {"command": ['echo bad >> "$PROJ/trace"; exit 3']},
         "allowbad": {"command": ['echo allowbad >> "$PROJ/trace"; exit 4'], "allow_failure": True},
         "s1": {"command": ["true"]}, "sbad": {"command": ["exit 9"]},
         "pokm": {"command": ['echo pok >> "$PROJ/trace"']}, "pbadm": {"command": ['echo pbad >> "$PROJ/trace"']},
+        "flaky": {"command": ['echo flaky >> "$PROJ/trace"; exit 3', 'echo flaky-went-on >> "$PROJ/trace"']},
         "pparm": {"command": ['echo ppar >> "$PROJ/trace"']}, "qfail": {"command": ["exit 3"]}, "slowok": {"command": ["sleep 0.4"]}, "slowok2": {"command": ["sleep 0.2"]}},
         "pipelines": {"pok": [{"task": "pokm"}, {"task": "s1", "depends_on": ["pokm"]}],
                       "pbad": [{"task": "pbadm"}, {"task": "sbad", "depends_on": ["pbadm"]}, {"task": "s1", "depends_on": ["sbad"]}],
                       # a failure followed by parallel stages that succeed LATER: the pipeline still failed
+                      "ptol": [{"task": "flaky", "allow_failure": True}, {"task": "s1", "depends_on": ["flaky"]}],
+                      "pgate": [{"task": "s1", "condition": NOCMD}],
                       "ppar": [{"task": "pparm"}, {"task": "qfail", "depends_on": ["pparm"]}, {"task": "slowok", "depends_on": ["pparm"]}, {"task": "slowok2", "depends_on": ["pparm"]}]}}
     jobs = []
     seqs = []
     for k in (1, 2, 3):
-        seqs += list(itertools.product([1, 2, 3, 4, 5, 6, 7], repeat=k))
+        seqs += list(itertools.product([1, 2, 3, 4, 5, 6, 7, 8, 9, 10], repeat=k))
     # a pipeline target is named at most once per command line: the statuses of a graph are never reset, so a second
     # run of the same graph object does nothing (recorded in DESIGN.md section 7 as outside the properties)
-    seqs = [s for s in seqs if all(s.count(p) <= 1 for p in (4, 5, 7))]
+    seqs = [s for s in seqs if all(s.count(p) <= 1 for p in (4, 5, 7, 8, 10))]
     rng = vlib.rng_for(ctx.seed, "C07cli")
     if ctx.tier != "thorough":
-        seqs = [s for s in seqs if len(s) <= 2] + rng.sample([s for s in seqs if len(s) == 3], 60)
+        seqs = [s for s in seqs if len(s) <= 2] + [(8, 9, 1), (8, 9, 2), (1, 8, 9), (10, 1, 2), (1, 10, 2), (8, 10, 1)] + rng.sample([s for s in seqs if len(s) == 3], 80)
     for s in seqs:
-        forms = ["root", "run"] + (["runtask"] if all(t in (1, 2, 3, 6) for t in s) else [])
+        forms = ["root", "run"] + (["runtask"] if all(t in (1, 2, 3, 6, 9) for t in s) else [])
         for form in (forms if ctx.tier == "thorough" or len(s) <= 2 else [rng.choice(forms)]):
             argv = ["-c", "cfg.json", "--raw"] + {"root": [], "run": ["run"], "runtask": ["run", "task"]}[form] + [names[t] for t in s]
             jobs.append({"id": len(jobs), "files": {"cfg.json": clilib.jcfg(doc)}, "argv": argv, "keep": ["trace"], "targets": list(s), "form": form})
@@ -75,7 +87,7 @@ def run(ctx):
     res.rule = ("tasks: every exit status 0..255 at command positions of 1..3-command tasks, with/without allow_failure (all positions for "
                 "the boundary statuses, every position in thorough), random tasks; the same judged for Errored/Skipped/ExitCode/error.  "
                 "process: every sequence of 1..2 targets (sample of 3; all in thorough) over {ok, ok, failing task, ok pipeline, failing "
-                "pipeline, allowed-failure task} through `taskctl T..`, `taskctl run T..`, `taskctl run task T..`: which targets ran, exit "
+                "pipeline, allowed-failure task, a pipeline whose stage allows the failure of a task, that task itself, a pipeline with a stage condition that cannot be evaluated} through `taskctl T..`, `taskctl run T..`, `taskctl run task T..`: which targets ran, exit "
                 "status.  distinct = distinct case; non-trivial = a non-zero status or >= 2 targets.")
     if ctx.replay_cases:
         tcases = [c for c in ctx.replay_cases if "a" in c]
@@ -106,8 +118,23 @@ def run(ctx):
         if r["timeout"] or clilib.crashed(r):
             res.violations.append({"class": None, "what": "taskctl hung or crashed while running targets", "case": j, "observed": r})
             continue
-        ran = [{"ok1": 1, "ok2": 2, "bad": 3, "pok": 4, "pbad": 5, "allowbad": 6, "ppar": 7}[l] for l in (r["files"].get("trace") or "").split()]
-        items.append("(%d%%N, targets_ok [3; 5; 7] %s %s %d)" % (j["id"], vlib.clist(j["targets"]), vlib.clist(ran), r["rc"]))
+        toks = (r["files"].get("trace") or "").split()
+        gate_ran = NOCMD in (r.get("err") or "")
+        ran, ti = [], 0
+        for t in j["targets"]:          # the targets that ran, read off the trace (tokens in command-line order) and the scheduler's message
+            if TOKEN[t] is None:
+                if not gate_ran:
+                    break
+                ran.append(t)
+            elif ti < len(toks) and toks[ti] == TOKEN[t]:
+                ran.append(t)
+                ti += 1
+            else:
+                break
+        ran += [99] * (len(toks) - ti)          # anything else in the trace: a target that must not have run, or a command after a failing one
+        if gate_ran and 10 not in ran:
+            ran.append(98)
+        items.append("(%d%%N, targets_ok %s %s %s %d)" % (j["id"], vlib.clist(BAD), vlib.clist(j["targets"]), vlib.clist(ran), r["rc"]))
         if len(j["targets"]) >= 2:
             res.nontrivial_keys.add(json.dumps([j["targets"], j["form"]]))
     badcli = set()
